@@ -11,7 +11,7 @@ from props import common
 ID = "C07"
 LEVEL = "proof"
 SIDECARS = ["contracts.tensor", "contracts.names"]
-TARGETS = ["Tensor.tensor_name", "Tensor.get_ranks", "Tensor.swizzle", "Tensor.update_ranks", "Tensor.from_fiber",
+TARGETS = ["Tensor.root_name", "Tensor.__get_rank", "Tensor.tensor_name", "Tensor.get_ranks", "Tensor.swizzle", "Tensor.update_ranks", "Tensor.from_fiber",
            "Tensor.fiber_name",
            "TransUtils.build_rank_ids", "TransUtils.build_set_rank_ids", "TransUtils.build_swizzle",
            "Header.make_get_root", "Header.make_tensor_from_fiber", "Header.make_swizzle", "Header.make_output"]
